@@ -83,7 +83,7 @@ def check_schedule(ctx, R="C19.schedule"):
     if set(branches) < {"choose", "shuffle"}:
         raise AnalysisError("shape not recognised: schedule branches of _invokeSubBehavior")
     ch = branches["choose"]
-    last = ch.body[-1]
+    last = lib.core(ch.body)[-1]
     if unparse(last) == "subs = (pickEnabledInvocable(subs),)":
         ctx.ok(R, last, "choose: exactly one picked item is invoked")
     else:
@@ -94,7 +94,7 @@ def check_schedule(ctx, R="C19.schedule"):
     if sched:
         wl = [n for n in sched[0].body if isinstance(n, ast.While)]
         if wl and unparse(wl[0].test) == "subs":
-            body = [unparse(s) for s in wl[0].body]
+            body = [unparse(s) for s in lib.core(wl[0].body)]
             good = body == ["choice = pickEnabledInvocable(subs)", "subs.pop(choice)", "yield from self._invokeInner(agent, (choice,))"]
     if good:
         ctx.ok(R, sched[0], "shuffle: while items remain, pick among them, remove the pick, run it")
